@@ -1,5 +1,5 @@
 (* C04 — every destination receives exactly its configured share. *)
-From C4E Require Import Base Minter Distributor DistrCoins DistrProofs Drift Books DistrNz Ledger LedgerProofs.
+From C4E Require Import Base Minter Distributor DistrCoins DistrProofs Drift Books DistrNz Ledger LedgerProofs LedgerOrder.
 From C4EProps Require C03.
 Open Scope Z_scope.
 
@@ -104,3 +104,19 @@ Theorem C04_machine_credits_the_truncated_share :
   a_shares t inflow (a_credit (sh_dest sh) (dec_mul_trunc inflow (sh_share sh)) st) (dflt - dec_mul_trunc inflow (sh_share sh)).
 Proof. intros sh t inflow st dflt H. cbn [a_shares]. replace (da_type (sh_dest sh) =? T_MAIN) with false by lia. reflexivity. Qed.
 Print Assumptions C04_machine_credits_the_truncated_share.
+
+(* "the outcome does not depend on the order in which sources are listed": two configurations that differ only in the order of
+   the non-MAIN sources inside sub-distributors (MAIN, when a source, first in both: not K1), run through the same history of
+   inflows and blocks — whatever payouts fail in either — credit every account, the burn and the unbooked remainder with
+   exactly the same amounts *)
+Theorem C04_credited_amounts_do_not_depend_on_the_order_of_the_sources :
+  forall Acct bk, acct_universe Acct bk -> forall ops ops' w w' (st : Z -> aled),
+  lwinv Acct bk w -> lwinv Acct bk w' -> Forall2 sd_reordered (dw_subs w) (dw_subs w') ->
+  Forall (lop_ok Acct) ops -> Forall (lop_ok Acct) ops' -> Forall2 same_but_faults ops ops' ->
+  (forall d, LRep Acct bk d (st d) w) -> (forall d, LRep Acct bk d (st d) w') ->
+  exists w1 w2, lrun w ops = Ok w1 /\ lrun w' ops' = Ok w2 /\
+    forall d, (forall a, Acct a -> ledA a (dw_states w1) (wbank w1) d = ledA a (dw_states w2) (wbank w2) d) /\
+              ledB bk (dw_states w1) (wbank w1) d = ledB bk (dw_states w2) (wbank w2) d /\
+              unbooked (dw_states w1) (wbank w1) d = unbooked (dw_states w2) (wbank w2) d.
+Proof. exact credited_amounts_independent_of_source_order. Qed.
+Print Assumptions C04_credited_amounts_do_not_depend_on_the_order_of_the_sources.
